@@ -3,6 +3,7 @@
 package remoting
 
 import (
+	"encoding/binary"
 	"errors"
 	"io"
 	"net"
@@ -313,4 +314,43 @@ func VH_C11_frames_large() {
 		vrtAssert(!h.got[0].system && h.got[1].system, "system-flag-survives")
 	}
 	vrtReach("large-frames")
+}
+
+// VH_C13_handshake_large: a peer that sends a LOT of bytes as its handshake
+// (more than the 4096-byte buffer the parser reads into), with an arbitrary
+// length prefix: Wait returns a value or an error after work in proportion to
+// the input; it does not spin.
+func VH_C13_handshake_large() {
+	total := []int{4095, 4096, 4097, 5000}[vrtChoose(4)]
+	data := make([]byte, total)
+	for i := range data {
+		data[i] = byte('a' + i%26)
+	}
+	l := vrtUint32() // the declared length of the address string
+	binary.BigEndian.PutUint32(data[:4], l)
+	conn := &vhConn{stream: data, cut: -1}
+	h := &Handshake{AdvertiseAddr: "keep"}
+	defer func() {
+		if r := recover(); r != nil {
+			if _, mine := r.(vrtAssertFailed); mine {
+				panic(r)
+			}
+			if _, mine := r.(vrtAssumeFailed); mine {
+				panic(r)
+			}
+			if _, mine := r.(vrtExhausted); mine {
+				panic(r)
+			}
+			vrtAssert(false, "decode-no-panic")
+		}
+	}()
+	vrtStepLimit(400000)
+	err := h.Wait(conn)
+	vrtStepLimit(0)
+	if err != nil {
+		vrtReach("handshake-error")
+		vrtAssert(h.AdvertiseAddr == "keep", "caller-untouched-on-error")
+	} else {
+		vrtReach("handshake-ok")
+	}
 }
